@@ -13,7 +13,7 @@
 From stdpp Require Import gmap.
 From Coq Require Import NArith ZArith String.
 From EKW Require Import Sched.Model Sched.Lemmas Sched.Inv Sched.InvInit Sched.InvEnv Sched.InvCtl Sched.Safety
-                        Sched.Progress Sched.Rounds Sched.Heur Sched.HeurProofs Sched.Example Sched.WfDec.
+                        Sched.Progress Sched.Rounds Sched.Heur Sched.HeurProofs Sched.HeurEnabled Sched.Example Sched.WfDec.
 Local Open Scope N_scope.
 
 Local Arguments exec : simpl never.
@@ -106,6 +106,24 @@ Section full.
     unfold assign_progress, ongoing_total in *. by rewrite Ec, Eo.
   Qed.
 
+  (* ---- the heuristic-driven controller never raises, the heuristic's own lookups
+          (host2component, components, ts2component) included ---- *)
+  Theorem never_raises_full hls :
+    (∀ e, hrun J E (init J E, hinit J E K) hls ≠ Crash e) ∧ (∀ e, hrun J E (init J E, hinit J E K) hls ≠ Fail e).
+  Proof. exact (hnever_crash_never_fail J E K wf_nout Hwk hls). Qed.
+
+  (* ---- the hypotheses of the theorems of this file about the round are satisfiable in every reachable
+          state, whatever the oracle: the assign phase computed by the heuristic can be executed (every pair
+          is admissible when its turn comes: Sched/HeurEnabled.v) and so can the flush ---- *)
+  Theorem round_exists hls s hs o :
+    hrun J E (init J E, hinit J E K) hls = Next (s, hs) →
+    ∃ srcs s1 hs1 s2 cs, hexec J E (s, hs) (HAssign o srcs) = Next (s1, hs1) ∧ exec J E s1 LFlush = Next (s2, cs).
+  Proof.
+    intros Hr. destruct (hreachable_inv J E K wf_nout Hwk hls s hs Hr) as [Hinv Hh].
+    destruct (hassign_enabled J E K wf_nout Hwk s hs o Hinv Hh) as (srcs & s1 & hs1 & Ha).
+    exists srcs, s1, hs1. unfold exec. destruct (flush_c J (ctl s1)) as [[c fl] pl]. eauto.
+  Qed.
+
   (* ---- in-order runs ---- *)
   Lemma hexec_io_inv s hs hl s' hs' :
     Inv J E s → HInv E K s hs → InOrder J s → hio_ok J s hl = true → hexec J E (s, hs) hl = Next (s', hs') →
@@ -194,4 +212,6 @@ Print Assumptions hassign_progress.
 Print Assumptions assign_progress_full.
 Print Assumptions wait_implies_outstanding_full.
 Print Assumptions round_waits_full.
+Print Assumptions never_raises_full.
+Print Assumptions round_exists.
 Print Assumptions progress_full_nonvacuous.
